@@ -95,12 +95,15 @@ def gen_cases(rng, tier):
     combos = [(True, d1, d2, use, first) for d1, d2, use, first in
               itertools.product(['', 'other', 'base'], ['', 'other', 'base'], ['base', 'other-held', 'other-switched'], [True, False])]
     combos += [(False, '', '', use, first) for use in ['base', 'other-held', 'other-switched'] for first in (True, False)]
-    for v2, dis1, dis2, use, first in combos:          # exhaustive: 54 chords-v2 situations + 6 chords-v1
+    combos = [c + (False,) for c in combos] + [c + (True,) for c in combos if c[0]]
+    for v2, dis1, dis2, use, first, noop in combos:          # exhaustive: 54 chords-v2 situations (x2: participants that are no-op keys) + 6 chords-v1
         lay = 'base' if use == 'base' else 'other'
         if v2:
-            cfg = ('(defcfg concurrent-tap-hold yes)\n(defsrc a s d j k)\n(deflayer base a s d (layer-while-held other) (layer-switch other))\n'
-                   '(deflayer other a s d _ (layer-switch base))\n(defchordsv2 (a s) x 50 %s (%s) (a d) y 50 %s (%s))'
-                   % (rng.choice(['all-released', 'first-release']), dis1, rng.choice(['all-released', 'first-release']), dis2))
+            # (participants may be positions that do nothing by themselves: XX on every layer)
+            pk = 'XX XX XX' if noop else 'a s d'
+            cfg = ('(defcfg concurrent-tap-hold yes)\n(defsrc a s d j k)\n(deflayer base %s (layer-while-held other) (layer-switch other))\n'
+                   '(deflayer other %s _ (layer-switch base))\n(defchordsv2 (a s) x 50 %s (%s) (a d) y 50 %s (%s))'
+                   % (pk, pk, rng.choice(['all-released', 'first-release']), dis1, rng.choice(['all-released', 'first-release']), dis2))
             disabled = (dis1 if first else dis2) == lay
         else:
             cfg = ('(defsrc a s d j k)\n(deflayer base (chord g a) (chord g s) (chord g d) (layer-while-held other) (layer-switch other))\n'
@@ -110,7 +113,7 @@ def gen_cases(rng, tier):
         k2 = 31 if first else 32
         h = pre + ['d30', 'd%d' % k2, 't54', 'r30', 't2', 'r%d' % k2, 't5', 'u30', 'u%d' % k2, 't60'] + (['u36'] if use == 'other-held' else [])
         cases.append({'id': 'c14-chord-%d' % ci, 'cfg': cfg, 'hist': h, 'sub': 'ksim', 'form': True,
-                      'tags': {'form': 'chords-v2' if v2 else 'chords-v1', 'layer': use, 'disabled_here': disabled}})
+                      'tags': {'form': 'chords-v2' if v2 else 'chords-v1', 'layer': use, 'disabled_here': disabled, 'noop_participants': noop}})
         ci += 1
     # sequences: while a sequence is collecting, the hidden modes keep the typed keys away from the OS, so their repeats must not
     # be forwarded either; in the visible mode the key is down and its repeat goes through
